@@ -184,11 +184,14 @@ PROPS = {
             "counts_exact", "no_dangling", "held_alive", "content_stable", "reuse_only_free",
             "no_reuse_while_cached", "all_reclaimed", "all_reclaimed_pessimistic", "release_never_fails"]] +
             ["Meddly.CounterArray." + t for t in ["counter_refines", "width_inv", "tally_exact"]] +
-            ["Meddly.Dump.check_sound", "Meddly.Dump.evalFast_eq_evalChild"],
+            ["Meddly.Dump.check_sound", "Meddly.Dump.evalFast_eq_evalChild"] +
+            # the recount certificate run on every dump (Recount.ok) and what an accepted dump implies
+            ["Meddly.Recount." + t for t in ["top_unreferenced", "exists_unreferenced_of_no_roots", "count_zero_of_no_roots",
+                                             "no_leak", "root_counted"]],
         "quick": [fam("nodelife"), fam("canon"), fam("oplife")],
         "thorough": [fam("nodelife", "asan"), fam("canon", "asan"), fam("oplife", "asan")],
         "leanchecker": ["MeddlyModel.State.NodeLife", "MeddlyModel.State.CounterArray"],
-        "level_text": "NodeLife state machine (per handle free | active(level, in, cc, children) | deleted(cc); explicit multiset of outside references; pessimistic / optimistic policy) with theorems for EVERY legal op list: counts_exact (incoming count = number of references), no_dangling, held_alive, content_stable (a held node keeps level and children), reuse_only_free, no_reuse_while_cached, all_reclaimed (no references and no cache marks => every handle free; pessimistic: no references => no active handle). CounterArray refines a plain array of naturals through the 8/16/32-bit widening and narrowing. Tie: (D) a real forest driven at the primitive level (createReducedNode / link / unlink / cache / uncache / dd_edge set-copy-clear) with the state of EVERY handle compared with the model after every step, counts pushed across 255 and 65535, handle table grown and shrunk; the real counter_array class driven op by op; (S) in the canon family every dump is recounted (parents + registered roots = reported incoming count), every held edge is re-evaluated against its target after GC churn, and after releasing all edges and clearing caches the forest must report 0 nodes; family oplife does the same over random HISTORIES of real operations (set algebra, COMPLEMENT, COPY between rules, POST/PRE_IMAGE, integer and EV+ arithmetic, comparisons; edge copies, assignments, releases, cache clears) over up to four forests with random rules and policies on STRUCTURED operands (identity patterns, redundant and fixed variables - the shapes on which operations take early exits and chain builders): exact recount of every forest at random points, every result against the pointwise oracle, every held edge keeps its function, every forest empty at the end.",
+        "level_text": "NodeLife state machine (per handle free | active(level, in, cc, children) | deleted(cc); explicit multiset of outside references; pessimistic / optimistic policy) with theorems for EVERY legal op list: counts_exact (incoming count = number of references), no_dangling, held_alive, content_stable (a held node keeps level and children), reuse_only_free, no_reuse_while_cached, all_reclaimed (no references and no cache marks => every handle free; pessimistic: no references => no active handle). CounterArray refines a plain array of naturals through the 8/16/32-bit widening and narrowing. Tie: (D) a real forest driven at the primitive level (createReducedNode / link / unlink / cache / uncache / dd_edge set-copy-clear) with the state of EVERY handle compared with the model after every step, counts pushed across 255 and 65535, handle table grown and shrunk; the real counter_array class driven op by op; (S) in the canon family every dump is recounted (parents + registered roots = reported incoming count), every held edge is re-evaluated against its target after GC churn, and after releasing all edges and clearing caches the forest must report 0 nodes (Recount.no_leak: for a dump accepted by the recount with no user edge left, 'every node has a positive count' is contradictory unless the store is empty - the highest node is referenced by nobody - so the 0-nodes expectation follows from the certificate plus the reclamation rule; Recount.root_counted: a held edge's target has a positive count); family oplife does the same over random HISTORIES of real operations (set algebra, COMPLEMENT, COPY between rules, POST/PRE_IMAGE, integer and EV+ arithmetic, comparisons; edge copies, assignments, releases, cache clears) over up to four forests with random rules and policies on STRUCTURED operands (identity patterns, redundant and fixed variables - the shapes on which operations take early exits and chain builders): exact recount of every forest at random points, every result against the pointwise oracle, every held edge keeps its function, every forest empty at the end.",
         "level_note": "Paired (every creation/destruction of a reference carries its link/unlink) is the legality of the model run; on the implementation it is checked by the recount certificate, not assumed. A C++-level use-after-free cannot be exhibited by the theorem: the thorough tier runs the ASan flavour. Which free handle is picked is nondeterminism of the model. 'never delete' is indistinguishable from optimistic in the code and is mapped so.",
         "technique": "Lean 4 proof (invariants by induction over op lists, refinement) + step-by-step differential run on a real forest + recount certificate on dumps",
         "partial": ["mark-and-sweep forests not covered", "EV/quasi/identity forests only through the canon-family recount"],
